@@ -152,6 +152,8 @@ structure MEvent where
 
 inductive Err where
   | value (path : Path) (ty : String) (x : Int)
+  /-- a value constraint violated by an absent value (`None`): no command code / selector to look a layout up with -/
+  | valueNone (path : Path) (ty : String)
   | exceeded (cid : Nat) (cpath : Path) (max already : Nat) (violator : Path) (by_ : Nat)
   | subceeded (cid : Nat) (cpath : Path) (max already : Nat)
   | anticipated (cid : Nat) (cpath : Path) (max already : Nat) (violator : Path) (v : Nat) (by_ : Nat)
